@@ -108,6 +108,14 @@ class C14(ConnProp):
                 n2 = len(s) + rng.choice([-1, 0, 1, 100])
                 if n2 >= 0:
                     out.append(([5, s, n2], {'kind': 'maxlen', 'pair': pair, 'len': len(s), 'n': n2}))
+        # every prefix of a few small requests (the boundary of every slice operation of the one-shot parser)
+        for full in (b'GET / HTTP/1.1\r\n\r\n', b'PUT /a HTTP/1.0\r\nContent-Length: 3\r\n\r\nabc', b'PATCH /b HTTP/1.1\r\nX: y\r\nContent-Length: 1\r\n\r\nzz',
+                     b'GET /c HTTP/1.1\r\nContent-Length: 2\r\n\r\nhi', b'PUT /d HTTP/1.1\r\n\r\n\r\n'):
+            for cut in range(len(full) + 1):
+                s = full[:cut]
+                pair += 1
+                out.append(([5, s], {'kind': 'oneshot', 'pair': pair, 'exact': False}))
+                out.append(([6, 51200, s, [[2, 1 << 20]]], {'kind': 'conn', 'pair': pair, 'exact': False}))
         # short request lines around the one-shot parser's minimum length x version tokens cut short or extended: whatever
         # one entry point accepts as exactly one request, the other must accept too
         for m in reqgen.METHODS:
